@@ -41,6 +41,7 @@ type c15Result struct {
 	Reqs         []c15Req `json:"reqs"`
 	Other        []string `json:"other"` // methods of nonce-less messages the middlewares saw
 	NotifMW      int      `json:"notif_mw"`
+	Alias        string   `json:"alias"` // the answer to the request whose method a middleware rewrites to tools/call
 	Broken       string   `json:"broken,omitempty"`
 }
 
@@ -92,6 +93,12 @@ func c15MW(i int, b string, rec *c15Rec, want map[string]string) mcp.Middleware 
 				rec.mu.Lock()
 				rec.other = append(rec.other, req.Method)
 				rec.mu.Unlock()
+				if req.Method == "verif/alias" {
+					// a middleware that rewrites the method: what it hands to next is what gets dispatched
+					nr := *req
+					nr.Method = "tools/call"
+					return next(ctx, &nr)
+				}
 				return next(ctx, req)
 			}
 			rec.add(nonce, fmt.Sprintf("b%d", i), ctx, want)
@@ -245,9 +252,16 @@ func c15Run(sc c15Scenario) (res c15Result) {
 		peer.PostJSON(ctx, msg, nil, []byte(`{"jsonrpc":"2.0","id":"plain-ping","method":"ping"}`), false)
 		peer.PostJSON(ctx, msg, nil, []byte(`{"jsonrpc":"2.0","id":"plain-list","method":"resources/list"}`), false)
 		peer.PostJSON(ctx, msg, nil, []byte(`{"jsonrpc":"2.0","id":"plain-unknown","method":"verif/custom"}`), false)
+		peer.PostJSON(ctx, msg, nil, []byte(`{"jsonrpc":"2.0","id":"plain-alias","method":"verif/alias","params":{"name":"echo","arguments":{"trail":""}}}`), false)
 		st.WaitFor(time.Second, func(raw []byte, eof bool) bool {
-			return strings.Contains(string(raw), `"plain-ping"`) && strings.Contains(string(raw), `"plain-list"`) && strings.Contains(string(raw), `"plain-unknown"`)
+			return strings.Contains(string(raw), `"plain-ping"`) && strings.Contains(string(raw), `"plain-list"`) && strings.Contains(string(raw), `"plain-unknown"`) &&
+				strings.Contains(string(raw), `"plain-alias"`)
 		})
+		for _, e := range st.Events() {
+			if strings.Contains(e.Data, `"plain-alias"`) {
+				res.Alias = e.Data
+			}
+		}
 		time.Sleep(5 * time.Millisecond)
 	} else {
 		opts := []mcp.ServerOption{mcp.WithServerPath("/mcp"), mcp.WithServerLogger(silentLogger{}), mcp.WithHTTPContextFunc(ctxFunc),
@@ -321,6 +335,8 @@ func c15Run(sc c15Scenario) (res c15Result) {
 		peer.PostJSON(ctx, url, map[string]string{"Mcp-Session-Id": sid0}, []byte(`{"jsonrpc":"2.0","id":"plain-ping","method":"ping"}`), false)
 		peer.PostJSON(ctx, url, map[string]string{"Mcp-Session-Id": sid0}, []byte(`{"jsonrpc":"2.0","id":"plain-list","method":"resources/list"}`), false)
 		peer.PostJSON(ctx, url, map[string]string{"Mcp-Session-Id": sid0}, []byte(`{"jsonrpc":"2.0","id":"plain-unknown","method":"verif/custom"}`), false)
+		ar := peer.PostJSON(ctx, url, map[string]string{"Mcp-Session-Id": sid0}, []byte(`{"jsonrpc":"2.0","id":"plain-alias","method":"verif/alias","params":{"name":"echo","arguments":{"trail":""}}}`), false)
+		res.Alias = string(ar.Body)
 	}
 	rec.mu.Lock()
 	defer rec.mu.Unlock()
